@@ -185,7 +185,7 @@ func genTopo(c *core.Case, minN, maxN int) meshTopo {
 }
 
 type meshOpts struct {
-	infoClass int // 0 none, 1 a few listeners, 2 large service lists
+	infoClass int // 0 none, 1 a few listeners, 2 large service lists, 3 mixed per router (nothing .. several kB)
 	withTun   bool
 	stub      func(i int) bool // routers configured as stub (nil = none)
 	spread    bool             // addresses spread over prefixes vs. one routing prefix
@@ -236,7 +236,23 @@ func buildMesh(c *core.Case, t meshTopo, o meshOpts) *mesh {
 		if o.stub != nil && o.stub(i) {
 			st.Router.Stub = true
 		}
-		switch o.infoClass {
+		class := o.infoClass
+		if class == 3 {
+			// mixed: every router its own size, from nothing to several kilobytes
+			class = c.Pick("mesh.info.node", 5)
+		}
+		switch class {
+		case 4:
+			st.Router.Listen = []string{"tcp://192.0.2.1:47369"}
+			nsvc := c.Int("mesh.services.big", 8, 30)
+			for k := 0; k < nsvc; k++ {
+				st.ServiceConfigs = append(st.ServiceConfigs, config.ServiceConfig{
+					Name:        fmt.Sprintf("service-%d-%d", i, k),
+					Description: strings.Repeat("a longer public service description ", c.Int("mesh.desc.big", 1, 5)),
+					URL:         fmt.Sprintf("tcp://svc%d.myco:%d", k, 1000+k),
+					Public:      true, Advertise: true,
+				})
+			}
 		case 1:
 			st.Router.Listen = []string{"tcp://192.0.2.1:47369", "tcp://[2001:db8::1]:47369"}
 			st.Router.IANA = []string{"router.example.net"}
